@@ -208,7 +208,7 @@ func c26RunProgress(c c26Progress) (sig string, err error) {
 		return s, fmt.Errorf(f, a...)
 	}
 	period := map[uint8]int{4: 1024, 5: 16, 6: 64, 7: 256}[c.TAC&7]
-	carry := false
+	carry, owed := false, false
 	for f := 0; f < c.Frames; f++ {
 		hl0 := g.G.VerifCPU().VerifGet()
 		cn0 := tm.VerifCounter()
@@ -251,8 +251,15 @@ func c26RunProgress(c c26Progress) (sig string, err error) {
 			off := period - int(cn0)%period + (need-1)*period
 			nearEnd := incs >= need && off > 70224-12 // the request follows the overflow by a cycle
 			switch {
+			case owed && ifv&4 == 0:
+				return fail("timer-interrupt-lost-at-frame-boundary", "frame %d: TIMA overflowed in the last cycles of the previous frame, so its request is due by the reload in the first cycles of this one, but IF.2 is clear after this frame too", f+1)
+			case owed:
+				owed = false
+				carry = false
+				continue
 			case nearEnd:
 				carry = true
+				owed = ifv&4 == 0 // not seen yet: the reload cycle, and with it the request, falls into the next frame
 				continue
 			case incs >= need && ifv&4 == 0:
 				return fail("timer-interrupt-not-raised", "frame %d: TIMA %02x with %d increments overflowed but IF.2 is clear", f+1, tima0, incs)
@@ -562,6 +569,25 @@ func TestC26(t *testing.T) {
 								t.Errorf("%v", err)
 							}
 						}
+					}
+				}
+			}
+		}
+		// a single overflow placed k cycles before the end of the first frame (TAC 4: one increment every 256
+		// cycles; divider phase 432+4k makes the 69th increment, with TIMA starting at 187, the overflow)
+		for k := 0; k <= 8; k++ {
+			for cfg := 0; cfg < 4; cfg++ {
+				idx++
+				if !c.Env.Mine(idx) {
+					continue
+				}
+				cas := c26Progress{CartType: c26CartTypes[(k+cfg)%len(c26CartTypes)], Video: cfg&1 != 0, Audio: cfg&2 != 0, Frames: 3, TAC: 4, TIMA: 187, DMAPage: 0x20, DMAFrame: 2, Counter: uint16(432 + 4*k + 1024*((k*7+cfg)%60))}
+				sig, err := c26RunProgress(cas)
+				n++
+				c.Sample("progress-overflow-at-frame-end", cas)
+				if err != nil {
+					if known, first := c.FailFirst("progress", sig, err.Error(), cas); !known && first {
+						t.Errorf("%v", err)
 					}
 				}
 			}
